@@ -502,7 +502,7 @@ def rule_r8(ck, prog, rule='C17.R8'):
         return
     bad = None
     for vid in used:
-        stale, why = stale_across_iterations(g, f, lp, vid)
+        stale, why = stale_across_iterations(g, f, lp, vid, strict=True)
         if stale is None:
             ck.inconclusive(rule, f, 'observer-result-fresh-per-callback', None, why)
             return
